@@ -420,7 +420,16 @@ def rgen_generated_registrations(ctx):
     return c17.w_rules(ctx)
 
 
-LIB_RULES = [r1_permit_before_handler, r2_permit_flow, r3_unsubscribe_answer, r4_release_on_last_drop, r5_unsubscribe_needs_no_permit, r6_cap_provenance, r7_table_writers, r8_no_relock, r9_connection_ids_are_fresh, r10_ids_spelled_alike, r11_table_entry_always_has_an_owner, r12_ws_connections_always_get_the_subscription_service, rcfg_config_verbatim, rids_wire_ids_derive_both]
+def rflag_refused_subscribe_is_flagged_failed(ctx):
+    """`accept` and the subscribe call's future decide on `is_success()` of the subscribe response whether the subscription
+    exists (table entry, handler keeps running, slot stays taken). A response whose json was replaced by an error (too big
+    for the response limit, not serialisable) but that still says success is a refusal on the wire and an accepted
+    subscription in the table: the client never learns an id, the slot is held until the connection ends"""
+    from .common import response_flag_matches_json
+    response_flag_matches_json(ctx, "C06.FLAG")
+
+
+LIB_RULES = [rflag_refused_subscribe_is_flagged_failed, r1_permit_before_handler, r2_permit_flow, r3_unsubscribe_answer, r4_release_on_last_drop, r5_unsubscribe_needs_no_permit, r6_cap_provenance, r7_table_writers, r8_no_relock, r9_connection_ids_are_fresh, r10_ids_spelled_alike, r11_table_entry_always_has_an_owner, r12_ws_connections_always_get_the_subscription_service, rcfg_config_verbatim, rids_wire_ids_derive_both]
 CONFIGS_QUICK = ["libs-all", "corpus"]
 CONFIGS_THOROUGH = ["libs-all", "facade-full", "corpus"]
 
